@@ -72,7 +72,7 @@ Fixpoint fesc (s : string) : string :=
 Inductive pkind := PO | PK | VP | KO | VK.
 
 Inductive pyexpr :=
-| PName (id : string)
+| PName (id : string) (loc : bool)                (* loc: bound by the expression itself (comprehension target, lambda parameter) *)
 | PNum (isint : bool) (repr : string)            (* int / float / complex constant, with CPython's repr *)
 | PConst (repr : string)                         (* None, True, False, bytes (repr) and Ellipsis ("...") *)
 | PStr (repr raw : string) (parsed : option pyexpr)  (* str constant: repr, value, and what CPython parses the value to (None: SyntaxError) *)
@@ -230,7 +230,7 @@ Definition left_is_literal (lft : gexpr) : bool :=
 Fixpoint build (c0 : bctx) (e : pyexpr) {struct e} : option gexpr :=
   let c := enter c0 e in
   match e with
-  | PName id => if mapped NName then Some (GName id ParScope) else None
+  | PName id loc => if mapped NName then Some (GName id (if loc then ParNone else ParScope)) else None
   | PNum isint r => if mapped NConstant then Some (GStr (num_text isint r)) else None
   | PConst r => if mapped NConstant then Some (GStr r) else None
   | PStr r raw parsed =>
@@ -346,10 +346,14 @@ Fixpoint build (c0 : bctx) (e : pyexpr) {struct e} : option gexpr :=
       else None
   | PLambda po pk vp ko vk body =>
       if mapped NLambda then
-        (* defaults go through safe_get_expression(default, parse_strings=False): fresh flags, failure swallowed *)
+        (* defaults are built with the lambda's own flags, parse_strings off: _build(default, parent, **default_kwargs) *)
         let par := fun (k : pkind) (p : pyexpr) =>
           match p with
-          | PParam n d => Some (n, k, match d with Some d' => build ctx0 d' | None => None end)
+          | PParam n d =>
+              match d with
+              | Some d' => match build (mkCtx NoParse false (injoin c) (infmt c)) d' with Some g => Some (n, k, Some g) | None => None end
+              | None => Some (n, k, None)
+              end
           | _ => None
           end in
         match mapo (par PO) po, mapo (par PK) pk, mapo (par KO) ko, build c body with
